@@ -78,36 +78,43 @@ func (self *Interpreter) callFunc(span errors.Span, val value.Value, args []ast.
 	case value.ClosureValueKind:
 		closure := val.(value.ValueClosure)
 
-		// push a scope into the closure
-		closure.Scopes = append(closure.Scopes, make(map[string]*value.Value))
-		self.callStackSize++
-
-		// use the closure's scopes as the scopes of the current module
-		scopesPrev := self.currentModule.scopes
-		// use the closure's scope here
-		self.currentModule.scopes = closure.Scopes
-
-		// TODO: copy all used variables BY VALUE
-		// TODO: implement an analyzer step which detects all variables which the closure captures
-		// TODO: verify that this really works
-		// TODO: this can be done more efficiently
-
-		defer func() {
-			self.callStackSize--
-			// pop the closure scope again
-			closure.Scopes = closure.Scopes[:len(closure.Scopes)-1]
-			// restore scopes
-			self.currentModule.scopes = scopesPrev
-		}()
-
+		// The arguments are evaluated by the caller: in the caller's module and scopes
+		callScope := make(map[string]*value.Value)
 		for _, arg := range args {
 			argVal, i := self.expression(arg.Expression)
 			if i != nil {
 				return nil, i
 			}
-
-			closure.Scopes[len(closure.Scopes)-1][arg.Name] = argVal
+			callScope[arg.Name] = argVal
 		}
+
+		// The body runs in the module that created the closure
+		var previousModule *string
+		if closure.Module != self.currentModuleName {
+			currModulePrev := self.currentModuleName
+			previousModule = &currModulePrev
+			self.switchModule(closure.Module)
+		}
+
+		// ... on the scopes it captured plus a fresh scope for this call (a copy of the slice: appending to the
+		// captured one could overwrite scopes of the module's own stack, which shares its backing array)
+		module := self.currentModule
+		scopesPrev := module.scopes
+		scopes := make([]map[string]*value.Value, len(closure.Scopes), len(closure.Scopes)+1)
+		copy(scopes, closure.Scopes)
+		module.scopes = append(scopes, callScope)
+		self.callStackSize++
+
+		// TODO: copy all used variables BY VALUE
+		// TODO: implement an analyzer step which detects all variables which the closure captures
+
+		defer func() {
+			self.callStackSize--
+			module.scopes = scopesPrev
+			if previousModule != nil {
+				self.switchModule(*previousModule)
+			}
+		}()
 
 		val, i := self.block(closure.Block, false)
 		if i != nil {
